@@ -85,6 +85,13 @@ impl Engine {
         for k in &p.extra_keys {
             a.nontrivial.insert(*k);
         }
+        if a.samples.is_empty() && !p.nontrivial {
+            // always show at least one real case, even if no non-trivial one has turned up yet
+            let s = p.sample.clone().unwrap_or_else(|| Value::Null);
+            if !s.is_null() {
+                a.samples.push(s);
+            }
+        }
         if p.nontrivial {
             let new = a.nontrivial.insert(p.key);
             if new && a.samples.len() < 5 && (a.nontrivial.len() % 37 == 1 || a.samples.is_empty()) {
